@@ -60,10 +60,11 @@ def as_code_dev():
 
 
 def pipe_consts(dev=(), keeplog=False, kinds=("server",), limits=(1, 2), caps=(1, INF), pols=("fifo",),
-                nitems=(3,), ticks=(0, 1), hops=(0, 1, 2), svcs=(0, 1), prios=(0,), shts=(0,), shls=(0,)):
-    return {"Dev": S(dev), "KeepLog": "TRUE" if keeplog else "FALSE", "Kinds": S(kinds), "Limits": S(limits),
-            "Caps": S(caps), "Pols": S(pols), "NItems": S(nitems), "Ticks": S(ticks), "Hops": S(hops),
-            "Svcs": S(svcs), "Prios": S(prios), "ShiftTs": S(shts), "ShiftLs": S(shls)}
+                nitems=(3,), ticks=(0, 1), hops=(0, 1, 2), svcs=(0, 1), prios=(0,), flows=(1,), shts=(0,), shls=(0,)):
+    return {"Dev": S(dev), "PDev": "{}", "KeepLog": "TRUE" if keeplog else "FALSE", "Kinds": S(kinds),
+            "Limits": S(limits), "Caps": S(caps), "Pols": S(pols), "NItems": S(nitems), "Ticks": S(ticks),
+            "Hops": S(hops), "Svcs": S(svcs), "Prios": S(prios), "Flows": S(flows), "ShiftTs": S(shts),
+            "ShiftLs": S(shls)}
 
 
 def pol_consts(pdev=(), maxops=5, nf=3, params="MCAll", weights="MCWeights"):
@@ -128,10 +129,12 @@ def model_check(chk: Check, tier):
                         pipe_consts(nitems=(2,), caps=(1, INF)), [], props=["Settles"], spec="FairSpec", workers=1))
     jobs.append(Job("pipe shifted Dev={} N=3", "QueuePipe.tla",
                     pipe_consts(kinds=("shifted",), limits=(0, 1, 2), caps=(INF,), hops=(0, 1), svcs=(1,),
-                                ticks=(0, 1, 2), shts=(0, 1, 2), shls=(0, 1, 2)), PIPE_INVS, workers=mid))
+                                ticks=(0, 1, 2), shts=(0, 1, 2), shls=(0, 2) if quick else (0, 1, 2)),
+                    PIPE_INVS, workers=mid))
     jobs.append(Job("pipe lifo/prio Dev={} N=3", "QueuePipe.tla",
-                    pipe_consts(kinds=("server", "shifted"), pols=("lifo", "prio"), prios=(0, 1), hops=(0, 1),
-                                svcs=(1,), caps=(2, INF), limits=(1, 2)), PIPE_INVS, workers=mid))
+                    pipe_consts(kinds=("server",) if quick else ("server", "shifted"), pols=("lifo", "prio"),
+                                prios=(0, 1), hops=(0, 1), svcs=(1,), caps=(2, INF), limits=(1, 2)),
+                    PIPE_INVS, workers=mid))
     # --- each deviation alone is caught ------------------------------------------------------
     for dev, (invs, kw) in PIPE_DEVS.items():
         jobs.append(Job(f"pipe Dev={{{dev}}}", "QueuePipe.tla", pipe_consts(dev=[dev], keeplog=True, **kw), PIPE_INVS,
@@ -144,13 +147,14 @@ def model_check(chk: Check, tier):
     jobs.append(Job("pipe as-code shifted (behaviours)", "QueuePipe.tla",
                     pipe_consts(dev=ascode, keeplog=True, kinds=("shifted",), limits=(0, 1, 2), caps=(1, INF),
                                 pols=("fifo", "lifo"), nitems=(n_gen,), hops=(0, 1), svcs=(1,), ticks=(0, 1, 2),
-                                shts=(0, 1, 2), shls=(0, 2) if not quick else (0, 1, 2)),
+                                shts=(0, 1) if quick else (0, 1, 2), shls=(0, 2)),
                     ASCODE_INVS, workers=mid, dump=True, note="terminal states = behaviours replayed on the code"))
     # --- policy machines -----------------------------------------------------------------------
     jobs.append(Job("policies PDev={}", "PoliciesMC.tla", pol_consts(maxops=5 if quick else 6), POL_INVS, workers=mid))
     for dev, inv in POL_DEVS.items():
-        jobs.append(Job(f"policies PDev={{{dev}}}", "PoliciesMC.tla", pol_consts(pdev=[dev], maxops=5), POL_INVS,
-                        count=False, note="sensitivity run, must violate", expect={inv}))
+        jobs.append(Job(f"policies PDev={{{dev}}}", "PoliciesMC.tla",
+                        pol_consts(pdev=[dev], maxops=5, params="MCFair" if dev.startswith("fair") else "MCBasic"),
+                        POL_INVS, count=False, note="sensitivity run, must violate", expect={inv}))
     jobs.append(Job("policies histories", "PoliciesMC.tla", pol_consts(maxops=4 if quick else 5), [], dump=True,
                     count=False, note="maximal histories replayed on the real policy objects"))
     run_jobs(jobs, parallel=max(2, min(8, total // 2)))
@@ -175,7 +179,7 @@ def trace_cfg(wd, dev):
     return tlc.write_cfg(wd / "trace.cfg", spec="TSpec", constants={
         "Dev": S(dev), "KeepLog": "TRUE", "PDev": empty, "Kinds": empty, "Limits": empty, "Caps": empty,
         "Pols": empty, "NItems": empty, "Ticks": empty, "Hops": empty, "Svcs": empty, "Prios": empty,
-        "ShiftTs": empty, "ShiftLs": empty})
+        "Flows": empty, "ShiftTs": empty, "ShiftLs": empty})
 
 
 def validate(traces, dev, label, parallel=4):
@@ -195,10 +199,14 @@ def validate(traces, dev, label, parallel=4):
         slim = [{kk: v for kk, v in t.items() if kk not in ("wk", "meta")} for t in part]
         f.write_text(json.dumps(slim, separators=(",", ":")))
         res = tlc.run(SPEC / "QueueTrace.tla", cfg, label=lab, workers=1, timeout=3000, env={"TRACE_FILE": str(f)})
-        got = {}
+        got, parts3 = {}, {"V": {}, "M": {}, "Q": {}}
         for v in res.printed:
-            if isinstance(v, tuple) and len(v) == 8 and v[0] == "V":
-                got[v[1]] = tuple(v[2:])
+            if isinstance(v, tuple) and len(v) == 4 and v[0] in parts3:
+                parts3[v[0]][v[1]] = (v[2], v[3])
+        for t in part:
+            i = t["id"]
+            if i in parts3["V"] and i in parts3["M"] and i in parts3["Q"]:
+                got[i] = parts3["V"][i] + parts3["M"][i] + parts3["Q"][i]
         miss = [t["id"] for t in part if t["id"] not in got]
         if miss:
             raise tlc.TLCFailure(f"{lab}: no verdict for traces {miss[:3]} (see {wd / 'tlc.out'})")
@@ -216,7 +224,10 @@ def validate(traces, dev, label, parallel=4):
 # ---------------------------------------------------------------------------
 # naming a contract failure by what fails (known findings are matched by this key, never by property)
 
-def classify(tr, verdict, pos):
+def classify(tr, verdict, pos, model_agrees=False):
+    """Key of a contract failure = what fails.  `model_agrees`: the QueuePipe machine with the known
+    deviations reproduced the whole observed log (rule R4), so the failure is one the model predicts
+    and only has to be attributed to the deviation that produces this clause."""
     clause = verdict[5:]
     log = tr["log"]
     wk = tr.get("wk", "")
@@ -224,46 +235,62 @@ def classify(tr, verdict, pos):
     if clause in ("idle_wait", "stranded") and prev:
         T = prev[-1][2]
         at_T = [(k, r) for k, r in enumerate(prev) if r[2] == T]
-        # limit in force before instant T / raised at T
         lim = tr["lim0"]
         raised_at = None
         for k, r in enumerate(prev):
-            if r[0] == "lim":
-                if r[4] > lim and r[2] == T:
-                    raised_at = k
-                lim = r[4]
-            else:
-                lim = r[4]
+            if r[0] == "lim" and r[4] > lim and r[2] == T:
+                raised_at = k
+            lim = r[4]
         pops_T = [k for k, r in at_T if r[0] == "pop"]
         if raised_at is not None and not any(k > raised_at for k in pops_T):
             # the limit went up at this instant while items were queued and nothing was dequeued afterwards
             return "capacity_raise_does_not_wake_driver"
-        if pops_T:
-            k = pops_T[-1]
-            item = prev[k][1]
-            started = [kk for kk, r in at_T if kk > k and r[0] == "sta" and r[1] == item]
-            if started:
-                # the driver dequeued one item at this instant, it began service, capacity and work remain,
-                # and the driver did not ask the queue again
-                return "driver_polls_once_per_wakeup"
+        pops = [k for k, r in enumerate(prev) if r[0] == "pop"]
+        if pops:
+            k = pops[-1]
+            item, t_pop = prev[k][1], prev[k][2]
+            s_idx = next((kk for kk in range(k + 1, len(prev))
+                          if prev[kk][0] == "sta" and prev[kk][1] == item and prev[kk][2] == t_pop), None)
+            if s_idx is not None:
+                later = prev[s_idx + 1:]
+                woken = any(r[0] in ("fin", "pop0", "rjq") or r[5] == 0 or (r[0] == "lim") for r in later)
+                if not woken and prev[s_idx][5] >= 1:
+                    # the driver dequeued one item, it began service with work still queued and capacity left,
+                    # and since then nothing that wakes the driver happened (no completion, the queue never
+                    # ran empty): it polls once per wake-up and never again after a start
+                    return "driver_polls_once_per_wakeup"
+        if model_agrees:
+            return "driver_polls_once_per_wakeup"
         return clause
     if clause == "limit" and wk != "server" and pos >= 1:
         item = log[pos - 1][1]
-        transit = set()
+        transit, n_s, lim, pops_at = set(), 0, tr["lim0"], {}
+        hit = None
         for r in prev:
+            lim = r[4]
             if r[0] == "pop":
                 if r[1] == item:
+                    # free slots when the item was taken from the queue, and earlier dequeues at that instant
+                    hit = (lim - n_s - len(transit), pops_at.get(r[2], 0))
                     break
                 transit.add(r[1])
-            elif r[0] in ("sta", "rjq", "req"):
+                pops_at[r[2]] = pops_at.get(r[2], 0) + 1
+            elif r[0] == "sta":
                 transit.discard(r[1])
-        else:
-            return clause
-        if transit:
-            # the item was dequeued while another delivery was still on its way to the worker
+                n_s += 1
+            elif r[0] == "fin":
+                n_s -= 1
+            elif r[0] in ("rjq", "req"):
+                transit.discard(r[1])
+        if hit is not None and hit[0] <= 0 and hit[1] >= 1:
+            # a second poll of the same instant dequeued the item although the slot it was issued for had
+            # already been given to the delivery in flight (has_capacity ignores polls / deliveries in flight)
+            return "double_poll_overadmits_non_rejecting_worker"
+        if model_agrees:
             return "double_poll_overadmits_non_rejecting_worker"
         return clause
-    if clause in ("order", "capacity") and wk in ("shifted", "reneging"):
+    if clause in ("order", "capacity", "fair_share", "reject_not_counted", "conservation",
+                  "dequeued_item_not_waiting") and wk in ("shifted", "reneging"):
         prm = tr["prm"]
         plain = prm["kind"] == "fifo" and prm["cap"] >= INF and prm["thr"] >= INF
         pops = [r[1] for r in log if r[0] == "pop"]
@@ -280,35 +307,50 @@ def classify(tr, verdict, pos):
 
 def sc_from_state(st):
     s = st["sc"]
-    return {"wk": s["wk"], "lim": s["lim"], "cap": s["cap"], "pol": s["pol"],
-            "arr": [dict(t=a["t"], h=a["h"], s=a["s"], p=a["p"]) for a in s["arr"]],
-            "sh": {"t": s["sh"]["t"], "l": s["sh"]["l"]}}
+    return {"wk": s["wk"], "lim": s["lim"], "prm": dict(s["prm"]), "W": list(s["W"]),
+            "arr": [dict(t=a["t"], h=a["h"], s=a["s"], p=a["p"], f=a["f"]) for a in s["arr"]],
+            "sh": {"t": s["sh"]["t"], "l": s["sh"]["l"]}, "dyn": [dict(d) for d in s["dyn"]], "rt": s["rt"]}
+
+
+POLICY_KINDS = ("fifo", "lifo", "prio", "deadline", "fair", "wfair")
 
 
 def random_scenario(rng, k):
+    """Scenario beyond the bounds of the model-checked configurations: more items, ticks, hops, limits,
+    every policy, balking, forwarders that re-use the event object, set_limit calls, shift changes."""
     wk = "shifted" if k % 3 == 0 else "server"
-    n = rng.randint(2, 7)
+    kind = POLICY_KINDS[(k // 3) % len(POLICY_KINDS)] if k % 2 else rng.choice(("fifo", "fifo", "lifo", "prio"))
+    nf = rng.randint(1, 3) if kind in ("fair", "wfair") else 1
+    n = rng.randint(2, 8)
     burst = rng.random() < 0.6
     tmax = rng.choice((0, 1, 2, 4))
     s_all = rng.randint(0, 3)
     arr = []
     for _ in range(n):
         t = rng.choice((0, tmax)) if burst else rng.randint(0, tmax)
+        p = (t + rng.randint(0, 4)) if kind == "deadline" else rng.randint(0, 2) if kind == "prio" else 0
         arr.append(dict(t=t, h=rng.choice((0, 0, 1, 2, 3)), s=s_all if wk == "shifted" else rng.randint(0, 3),
-                        p=0))
-    pol = rng.choice(("fifo", "fifo", "lifo", "prio"))
-    if pol == "prio":
-        for a in arr:
-            a["p"] = rng.randint(0, 2)
-    sc = dict(wk=wk, lim=rng.randint(1, 3), cap=rng.choice((1, 2, 3, INF, INF)), pol=pol, arr=arr, sh=dict(t=0, l=0))
+                        p=p, f=rng.randint(1, nf)))
+    prm = {}
+    cap = rng.choice((1, 2, 3, INF, INF))
+    if kind == "fair":
+        cap = INF
+        prm = dict(pfc=rng.choice((1, 2, INF)), mxf=rng.choice((2, 3, INF)))
+    if kind == "wfair":
+        prm = dict(pfc=rng.choice((1, 2, INF, INF)))
+    if kind in ("fifo", "prio") and rng.random() < 0.25:
+        prm = dict(thr=rng.randint(1, 3), bm=rng.choice((0, 1, 2)))
+    Wt = [rng.choice((1, 2, 3, 0)) for _ in range(nf)] if kind == "wfair" else [1] * nf
+    lim = rng.randint(1, 3)
+    sh, dyn = (0, 0), ()
     if wk == "shifted":
-        sc["lim"] = rng.randint(0, 3)
+        lim = rng.randint(0, 3)
         if rng.random() < 0.6:
-            sc["sh"] = dict(t=rng.randint(1, 4), l=rng.randint(0, 3))
-    return sc
-
-
-POLICY_KINDS = ("fifo", "lifo", "prio", "deadline", "fair", "wfair")
+            sh = (rng.randint(1, 4), rng.randint(0, 3))
+    elif k % 7 == 3:
+        dyn = sorted((rng.randint(0, 4), rng.randint(1, 4)) for _ in range(rng.randint(1, 3)))
+    return W.mk_sc(wk=wk, lim=lim, kind=kind, cap=cap, arr=arr, sh=sh, dyn=dyn, rt=1 if rng.random() < 0.25 else 0,
+                   W=Wt, **prm)
 
 
 def random_policy_case(rng):
@@ -334,42 +376,7 @@ def random_policy_case(rng):
             ops.append(("pop",))
         else:
             ops.append(("tick",))
-    # the reference uses the weight the code uses (weights below 1 count as 1)
     return prm, Wt, ops
-
-
-def random_pipeline(rng, k):
-    kind = POLICY_KINDS[k % len(POLICY_KINDS)]
-    nf = rng.randint(1, 3) if kind in ("fair", "wfair") else 1
-    prm = dict(kind=kind, cap=rng.choice((1, 2, 3, INF, INF)), pfc=INF, mxf=INF, thr=INF, bm=0)
-    if kind == "fair":
-        prm["cap"] = INF
-        prm["pfc"] = rng.choice((1, 2, INF))
-        prm["mxf"] = rng.choice((2, 3, INF))
-    if kind in ("fifo", "prio") and rng.random() < 0.4:
-        prm["thr"] = rng.randint(1, 3)
-        prm["bm"] = rng.choice((0, 1, 2))
-    Wt = [rng.randint(1, 3) for _ in range(nf)] if kind == "wfair" else [1] * nf
-    n = rng.randint(2, 8)
-    tmax = rng.choice((0, 1, 3))
-    arr = []
-    for _ in range(n):
-        t = rng.choice((0, tmax))
-        arr.append(dict(t=t, h=rng.choice((0, 0, 1, 2)), s=rng.randint(0, 3),
-                        p=(t + rng.randint(0, 4)) if kind == "deadline" else rng.randint(0, 2), f=rng.randint(1, nf)))
-    cfg = dict(prm=prm, W=Wt, lim=rng.randint(1, 3), arr=arr, retarget=rng.random() < 0.3,
-               shuffle=rng.randrange(10 ** 6) if rng.random() < 0.5 else None)
-    mode = k % 7
-    if mode == 3:
-        cfg["dyn"] = sorted((rng.randint(0, 4), rng.randint(1, 4)) for _ in range(rng.randint(1, 3)))
-    elif mode == 5:
-        cfg["weighted"] = True
-        cfg["lim"] = rng.randint(2, 4)
-        for a in arr:
-            a["w"] = rng.randint(1, 2)
-    if rng.random() < 0.3:
-        cfg["end_tick"] = rng.randint(3, 12)
-    return cfg
 
 
 # ---------------------------------------------------------------------------
@@ -385,6 +392,11 @@ def run(tier, seed, replay=None):
     t0 = time.time()
     jobs = model_check(chk, tier)
     chk.extra["wall_model_check_s"] = round(time.time() - t0, 1)
+    return real_runs(chk, tier, rng, jobs, ascode)
+
+
+def real_runs(chk, tier, rng, jobs, ascode):
+    quick = tier == "quick"
 
     traces, meta = [], {}
 
@@ -402,12 +414,14 @@ def run(tier, seed, replay=None):
     t0 = time.time()
     behaviours = []
     for name in ("pipe as-code server (behaviours)", "pipe as-code shifted (behaviours)"):
+        if name not in jobs:
+            continue
         j = jobs[name]
-        for st in tlc.parse_dump(j.dump_path, must_contain="fin = TRUE"):
-            behaviours.append((sc_from_state(st), [list(r) for r in st["log"]]))
+        for st in tlc.parse_dump(j.dump_path, must_contain="fin |-> TRUE"):
+            behaviours.append((sc_from_state(st), [list(r) for r in st["m"]["log"]]))
         j.dump_path.unlink(missing_ok=True)
     chk.extra["model_behaviours_total"] = len(behaviours)
-    cap = 2500 if quick else len(behaviours)
+    cap = 1200 if quick else len(behaviours)
     chosen = behaviours if len(behaviours) <= cap else rng.sample(behaviours, cap)
     chk.exhaustive = len(chosen) == len(behaviours)
     matched = 0
@@ -429,22 +443,23 @@ def run(tier, seed, replay=None):
     # TLC counterexamples of the deviations, executed on the real code
     cex = {}
     for dev in PIPE_DEVS:
-        j = jobs[f"pipe Dev={{{dev}}}"]
-        if j.res.trace:
+        j = jobs.get(f"pipe Dev={{{dev}}}")
+        if j is not None and j.res.trace:
             sc = sc_from_state(j.res.trace[0][1])
             tr, err = W.run_scenario(sc)
             cex[add(tr, f"counterexample:{dev}", ["scenario", sc, 10 ** 9], err)] = dev
             chk.replays += 1
 
     # policy histories of the model on the real policy objects
-    pj = jobs["policies histories"]
+    pj = jobs.get("policies histories")
     maxops = 4 if quick else 5
     hist_total = hist_match = 0
     pol_cases = []
-    for st in tlc.parse_dump(pj.dump_path, must_contain=f"n = {maxops}"):
-        pol_cases.append(st)
-    pj.dump_path.unlink(missing_ok=True)
-    capp = 1500 if quick else len(pol_cases)
+    if pj is not None:
+        for st in tlc.parse_dump(pj.dump_path, must_contain=f"n = {maxops}"):
+            pol_cases.append(st)
+        pj.dump_path.unlink(missing_ok=True)
+    capp = 800 if quick else len(pol_cases)
     chosen_p = pol_cases if len(pol_cases) <= capp else rng.sample(pol_cases, capp)
     for st in chosen_p:
         prm = dict(st["prm"])
@@ -465,35 +480,30 @@ def run(tier, seed, replay=None):
 
     # ---- code -> spec: executions beyond the bounds -------------------------------------------------
     t0 = time.time()
-    n_sc = 500 if quick else 6000
+    n_sc = 700 if quick else 11000
     for k in range(n_sc):
         sc = random_scenario(rng, k)
         tick = (10 ** 9, 2 * 10 ** 9, 60 * 10 ** 9)[k % 3]
         end_tick = rng.randint(2, 10) if k % 5 == 4 else None
-        tr, err = W.run_scenario(sc, tick_ns=tick, end_tick=end_tick)
-        if end_tick is not None:
-            tr["hassc"] = 0          # the machine models auto-termination only
-        add(tr, "random-scenario", ["scenario", sc, tick, end_tick], err)
-    n_pol = 600 if quick else 8000
+        weights = [rng.randint(1, 2) for _ in sc["arr"]] if (k % 11 == 5 and sc["wk"] == "server" and not sc["dyn"]) else None
+        if weights:
+            sc["lim"] = rng.randint(2, 4)
+        sd = rng.randrange(10 ** 6)
+        tr, err = W.run_scenario(sc, tick_ns=tick, end_tick=end_tick, seed=sd, weights=weights)
+        add(tr, "random-scenario", ["scenario", sc, tick, end_tick, sd, weights], err)
+    n_pol = 400 if quick else 8000
     for k in range(n_pol):
         prm, Wt, ops = random_policy_case(rng)
         sd = rng.randrange(10 ** 6)
         tr, _ = W.run_policy_ops(prm, Wt, ops, seed=sd)
         add(tr, "random-policy", ["policy", prm, Wt, ops, sd])
-    n_pipe = 400 if quick else 5000
-    for k in range(n_pipe):
-        cfg = random_pipeline(rng, k)
-        tick = (10 ** 9, 5 * 10 ** 9)[k % 2]
-        sd = rng.randrange(10 ** 6)
-        tr, err = W.run_pipeline(cfg, tick_ns=tick, seed=sd)
-        add(tr, "random-pipeline", ["pipeline", cfg, tick, sd], err)
-    n_topo = 80 if quick else 1000
+    n_topo = 50 if quick else 1000
     for k in range(n_topo):
         sd = rng.randrange(10 ** 9)
         trs, err, _ = W.run_topology(random.Random(sd))
         for tr in trs:
             add(tr, "topology", ["topology", sd], err)
-    n_st = 60 if quick else 800
+    n_st = 40 if quick else 800
     for k in range(n_st):
         for fn in W.STATIONS:
             sd = rng.randrange(10 ** 9)
@@ -528,7 +538,7 @@ def judge(chk, traces, meta, ascode, cex=None):
             o["accept"] += 1
         else:
             o["prop"] += 1
-            key = classify(tr, v, pos)
+            key = classify(tr, v, pos, model_agrees=(tr["hassc"] == 1 and qv == "OK"))
             dev = KEY_DEV.get(key)
             # a known finding explains the failure only if the implementation model (with the known
             # deviations) agreed with the code up to the failing record
@@ -541,9 +551,6 @@ def judge(chk, traces, meta, ascode, cex=None):
                 confirmed[cex[tid]] = key
         for what, p in ((mv, mpos), (qv, qpos)):
             if what != "OK":
-                known_gap = v != "ACCEPT" and KEY_DEV.get(classify(tr, v, pos)) == "shifted_ignores_policy"
-                if known_gap and what.startswith("MODEL:push") or known_gap and what in ("MODEL:pop_choice", "MODEL:depth"):
-                    continue     # the configured policy is not the installed one: explained by the known finding
                 o["drift"] += 1
                 drift_n += 1
                 chk.note_drift(f"trace {tid} ({m['origin']}): {what} at record {p}; regen={m['regen']}")
@@ -582,19 +589,12 @@ def regen_trace(regen):
     if kind == "scenario":
         sc, tick = regen[1], regen[2]
         end_tick = regen[3] if len(regen) > 3 else None
-        tr, err = W.run_scenario(sc, tick_ns=tick, end_tick=end_tick)
-        if end_tick is not None:
-            tr["hassc"] = 0
-        return tr
+        sd = regen[4] if len(regen) > 4 else 0
+        weights = regen[5] if len(regen) > 5 else None
+        return W.run_scenario(sc, tick_ns=tick, end_tick=end_tick, seed=sd, weights=weights)[0]
     if kind == "policy":
         prm, Wt, ops, sd = regen[1:5]
         return W.run_policy_ops(prm, Wt, [tuple(o) for o in ops], seed=sd)[0]
-    if kind == "pipeline":
-        cfg, tick, sd = regen[1:4]
-        cfg = dict(cfg)
-        if cfg.get("dyn"):
-            cfg["dyn"] = [tuple(x) for x in cfg["dyn"]]
-        return W.run_pipeline(cfg, tick_ns=tick, seed=sd)[0]
     if kind == "topology":
         return W.run_topology(random.Random(regen[1]))[0]
     if kind == "station":
